@@ -41,6 +41,9 @@ package main
 //   lay=0|1|2|3 [0]                  layout of the ammo file, invisible on the wire: 1 = blank lines between the entries and blanks around
 //                                    every line, 2 = no newline at the end of the file, 3 = CRLF line ends (uri, uripost, raw) resp.
 //                                    pretty-printed multi-line JSON (http/json)
+//   feat=<bits> [0]                  optional features of the gun that must not change the wire: 1 auto-tag, 2 answlog (filter all, written to
+//                                    /dev/null), 4 httptrace.trace, 8 httptrace.dump, 16 a debug-level logger (verbose logging of every shot)
+//   dns=0|1 [1]                      the dialer's dns-cache option (0: no pre-resolving, the plain net.Dialer)
 //   delay=<ms> [0]                   the target waits that long before it answers
 //   code=<status> [200]              status of the target's answer
 // The observation carries tm=ok|late: `late` when the machine was too slow for the case's timing margins (a pause that should stay
@@ -52,6 +55,7 @@ import (
 	"bufio"
 	"bytes"
 	"context"
+	"crypto/tls"
 	"encoding/hex"
 	"encoding/json"
 	"fmt"
@@ -80,6 +84,7 @@ import (
 	"github.com/yandex/pandora/core/config"
 	coreimport "github.com/yandex/pandora/core/import"
 	"go.uber.org/zap"
+	"go.uber.org/zap/zapcore"
 )
 
 var (
@@ -136,11 +141,13 @@ type caseIn struct {
 	mode    string // seq | par
 	sched   []int
 
-	gap, delay           int    // ms
-	idle, hs, rht        string // ms | "-" (hs also "def")
-	mic, mich            string // n | "-"
-	code                 int
-	lay                  int
+	gap, delay    int    // ms
+	idle, hs, rht string // ms | "-" (hs also "def")
+	mic, mich     string // n | "-"
+	code          int
+	lay           int
+	feat          int
+	nodns         bool
 }
 
 func optOr(s string) string {
@@ -207,6 +214,12 @@ func encodeCase(c caseIn) string {
 	if c.lay != 0 {
 		timing += fmt.Sprintf(" lay=%d", c.lay)
 	}
+	if c.feat != 0 {
+		timing += fmt.Sprintf(" feat=%d", c.feat)
+	}
+	if c.nodns {
+		timing += " dns=0"
+	}
 	return fmt.Sprintf("kind=run gun=%s fmt=%s ssl=%s srv=%s ka=%s inst=%d tgt=%s passes=%d pre=%s rsp=%s mode=%s sched=%s%s conf=%s ents=%s",
 		gun, c.format, b(c.ssl), c.srv, b(c.ka), c.inst, c.tgt, c.passes, b(c.preload), rsp, mode, strings.Join(sc, "."), timing,
 		strings.Join(cs, ";"), strings.Join(es, "|"))
@@ -245,7 +258,7 @@ func parseCase(input string) (c caseIn, err error) {
 		key string
 		dst *int
 		max int
-	}{{"gap", &c.gap, 5000}, {"delay", &c.delay, 5000}, {"code", &c.code, 599}, {"lay", &c.lay, 3}} {
+	}{{"gap", &c.gap, 5000}, {"delay", &c.delay, 5000}, {"code", &c.code, 599}, {"lay", &c.lay, 3}, {"feat", &c.feat, 31}} {
 		if v, ok := m[f.key]; ok {
 			n, e := strconv.Atoi(v)
 			if e != nil || n < 0 || n > f.max {
@@ -257,6 +270,7 @@ func parseCase(input string) (c caseIn, err error) {
 	if c.code < 200 {
 		return c, fmt.Errorf("code")
 	}
+	c.nodns = m["dns"] == "0"
 	for _, o := range []string{c.idle, c.rht, c.mic, c.mich} {
 		if o != "-" {
 			if n, e := strconv.Atoi(o); e != nil || n < -100000 || n > 1000000 {
@@ -584,6 +598,9 @@ func newTarget(c caseIn) (*target, error) {
 	}
 	rspBody := bytes.Repeat([]byte("r"), rspN)
 	h := http.HandlerFunc(func(w http.ResponseWriter, r *http.Request) {
+		if r.URL.Path == controlPath {
+			return // the harness's own reachability probe (see target.control): not a request of the case
+		}
 		body, _ := io.ReadAll(r.Body)
 		id, _ := r.Context().Value(connKey{}).(int64)
 		t.mu.Lock()
@@ -631,6 +648,56 @@ func newTarget(c caseIn) (*target, error) {
 	return t, nil
 }
 
+const controlPath = "/__c09_control"
+
+// control answers: can this target be reached right now from this process, without any pandora code? A raw TCP dial, the
+// CONNECT exchange when the target is a tunnel end, a TLS handshake when it speaks TLS, one HTTP/1.1 request. When a shot of
+// the case failed below HTTP although the scheme fits and the control fails as well, the trouble is the machine's (a loaded
+// machine drops connections in bursts); when the control succeeds the failure is the code's and is reported.
+func (t *target) control(c caseIn) error {
+	addr := t.srv.Listener.Addr().String()
+	d := net.Dialer{Timeout: 5 * time.Second}
+	conn, err := d.Dial("tcp", addr)
+	if err != nil {
+		return err
+	}
+	defer conn.Close()
+	_ = conn.SetDeadline(time.Now().Add(10 * time.Second))
+	if c.gun == "connect" {
+		if _, err := fmt.Fprintf(conn, "CONNECT %s HTTP/1.1\r\nHost: %s\r\n\r\n", addr, addr); err != nil {
+			return err
+		}
+		br := bufio.NewReader(conn)
+		res, err := http.ReadResponse(br, nil)
+		if err != nil {
+			return err
+		}
+		if res.StatusCode != http.StatusOK || br.Buffered() != 0 {
+			return fmt.Errorf("control: CONNECT answered %d", res.StatusCode)
+		}
+	}
+	var rw io.ReadWriter = conn
+	if c.srv == "tls" {
+		tc := tls.Client(conn, &tls.Config{InsecureSkipVerify: true, NextProtos: []string{"http/1.1"}})
+		if err := tc.Handshake(); err != nil {
+			return err
+		}
+		rw = tc
+	}
+	if _, err := io.WriteString(rw, "GET "+controlPath+" HTTP/1.1\r\nHost: control\r\nConnection: close\r\n\r\n"); err != nil {
+		return err
+	}
+	res, err := http.ReadResponse(bufio.NewReader(rw), nil)
+	if err != nil {
+		return err
+	}
+	_ = res.Body.Close()
+	if res.StatusCode != http.StatusOK {
+		return fmt.Errorf("control: status %d", res.StatusCode)
+	}
+	return nil
+}
+
 func (t *target) Close() {
 	t.srv.Close()
 	if t.decoy != nil {
@@ -651,6 +718,8 @@ type errAggregator struct {
 	expectRHT bool
 	// a response-header-timeout is configured at all (only then can a slow machine run into it)
 	haveRHT bool
+	// outcome of the control probe of the target, run when a shot failed below HTTP: "" (not run), "ok", or the error
+	control string
 }
 
 const rhtMsg = "timeout awaiting response headers"
@@ -702,7 +771,11 @@ func runCase(input string) string {
 	c, perr := parseCase(input)
 	expectNetErrors := perr == nil && (c.srv == "tls") != c.ssl
 	obs := ""
-	for attempt := 0; attempt < 3; attempt++ {
+	attempts := 5
+	if perr == nil && (c.gap > 0 || c.delay > 0) {
+		attempts = 3 // the cases that pause are slow already
+	}
+	for attempt := 0; attempt < attempts; attempt++ {
 		agg := &errAggregator{}
 		if perr == nil && c.rht != "-" {
 			if v, _ := strconv.Atoi(c.rht); v > 0 {
@@ -712,21 +785,25 @@ func runCase(input string) string {
 		}
 		obs = runWith(input, agg)
 		agg.mu.Lock()
-		env, neterr := agg.env, agg.net
+		env, neterr, control := agg.env, agg.net, agg.control
 		agg.mu.Unlock()
-		if os.Getenv("C09_DEBUG_ERRS") != "" && (env != "" || (neterr != "" && !expectNetErrors)) {
-			fmt.Fprintf(os.Stderr, "retry %d: env=%q net=%q obs=%s\n", attempt, env, neterr, drv.Trunc(obs, 80))
+		unexpectedNet := neterr != "" && !expectNetErrors
+		if env == "" && unexpectedNet && control != "" && control != "ok" {
+			env = "target-unreachable-for-the-control-probe"
 		}
-		if env == "" && (neterr == "" || expectNetErrors) && !strings.Contains(obs, "tun=bad:21") {
+		if os.Getenv("C09_DEBUG_ERRS") != "" && (env != "" || unexpectedNet) {
+			fmt.Fprintf(os.Stderr, "retry %d: env=%q net=%q control=%q obs=%s\n", attempt, env, neterr, control, drv.Trunc(obs, 80))
+		}
+		if env == "" && !unexpectedNet && !strings.Contains(obs, "tun=bad:21") {
 			return obs
 		}
-		if attempt == 2 {
+		if attempt == attempts-1 {
 			if env != "" {
 				return "ENV " + env
 			}
-			return obs // it persists: not the machine
+			return obs // it persists while the control probe reaches the target: not the machine
 		}
-		time.Sleep(time.Duration(200*(attempt+1)) * time.Millisecond)
+		time.Sleep(time.Duration(200<<attempt) * time.Millisecond)
 	}
 	return obs
 }
@@ -775,6 +852,18 @@ func runWith(input string, agg *errAggregator) string {
 	if !c.ka {
 		gunCfg["disable-keep-alives"] = true
 	}
+	if c.nodns {
+		gunCfg["dial"] = map[string]any{"timeout": "20s", "dns-cache": false}
+	}
+	if c.feat&1 != 0 {
+		gunCfg["auto-tag"] = map[string]any{"enabled": true, "uri-elements": 2, "no-tag-only": false}
+	}
+	if c.feat&2 != 0 {
+		gunCfg["answlog"] = map[string]any{"enabled": true, "path": "/dev/null", "filter": "all"}
+	}
+	if c.feat&12 != 0 {
+		gunCfg["httptrace"] = map[string]any{"trace": c.feat&4 != 0, "dump": c.feat&8 != 0}
+	}
 	// round 2: the transport's options, by their documented names
 	ms := func(v string) string { return v + "ms" }
 	switch c.hs {
@@ -810,6 +899,10 @@ func runWith(input string, agg *errAggregator) string {
 	ctx, cancel := context.WithCancel(context.Background())
 	defer cancel()
 	nop := zap.NewNop()
+	gunLog := nop
+	if c.feat&16 != 0 {
+		gunLog = zap.New(zapcore.NewCore(zapcore.NewJSONEncoder(zap.NewProductionEncoderConfig()), zapcore.AddSync(io.Discard), zapcore.DebugLevel))
+	}
 	runErr := make(chan error, 1)
 	go func() { runErr <- pool.Provider.Run(ctx, core.ProviderDeps{Log: nop, PoolID: "c09"}) }()
 
@@ -819,7 +912,7 @@ func runWith(input string, agg *errAggregator) string {
 		if err != nil {
 			return "construct-err gun"
 		}
-		if err := g.Bind(agg, core.GunDeps{Ctx: ctx, Log: nop, PoolID: "c09", InstanceID: i}); err != nil {
+		if err := g.Bind(agg, core.GunDeps{Ctx: ctx, Log: gunLog, PoolID: "c09", InstanceID: i}); err != nil {
 			return "construct-err bind"
 		}
 		guns[i] = g
@@ -927,6 +1020,18 @@ func runWith(input string, agg *errAggregator) string {
 		}
 	case <-time.After(5 * time.Second):
 		run = "hang"
+	}
+	agg.mu.Lock()
+	failedBelowHTTP := agg.net != ""
+	agg.mu.Unlock()
+	if failedBelowHTTP && (c.srv == "tls") == c.ssl {
+		res := "ok"
+		if err := tg.control(c); err != nil {
+			res = drv.Trunc(drv.Clean(err.Error()), 120)
+		}
+		agg.mu.Lock()
+		agg.control = res
+		agg.mu.Unlock()
 	}
 	// the target hangs up first: the TIME_WAIT state then lies with the target's port, not with the ephemeral ports of
 	// the guns (tens of thousands of cases would exhaust them)
@@ -1175,6 +1280,15 @@ func genCase(r *rand.Rand, malformed bool) caseIn {
 	}
 	if r.Intn(3) == 0 {
 		c.lay = 1 + r.Intn(3)
+	}
+	if r.Intn(5) == 0 {
+		c.feat = 1 << r.Intn(5)
+		if r.Intn(3) == 0 {
+			c.feat = 1 + r.Intn(31)
+		}
+	}
+	if c.tgt != "localhost" && r.Intn(12) == 0 {
+		c.nodns = true
 	}
 	// round 2: answer status and transport options (no pauses here: see timedCases)
 	if c.rsp != "redir" && r.Intn(4) == 0 {
@@ -1515,23 +1629,23 @@ func timedCases(r *rand.Rand, n int) []string {
 		plainOnly     bool
 	}
 	tpls := []tpl{
-		{gap: 1200, hs: "def", inst: 1, shots: 2, plainOnly: true},                 // all defaults: 1s < pause < 90s
-		{gap: 800, hs: "300", inst: 1, shots: 2, plainOnly: true},                  // short handshake timeout, default idle timeout
-		{gap: 800, idle: "300", inst: 1, shots: 3},                                 // the operator's own short idle timeout
-		{gap: 150, idle: "2000", inst: 2, shots: 4},                                // idle timeout well above the pauses
-		{delay: 900, rht: "300", inst: 1, shots: 2},                                // answers later than response-header-timeout
-		{delay: 100, rht: "2500", inst: 1, shots: 3},                               // answers in time
-		{gap: 700, hs: "250", inst: 2, shots: 4, mode: "par", plainOnly: true},     // parallel instances, each pausing
-		{gap: 600, idle: "0", hs: "200", inst: 1, shots: 2, plainOnly: true},       // idle timeout 0 = no limit
-		{gap: 500, idle: "200", rht: "5000", inst: 2, shots: 4},                    // both timeouts given
-		{gap: 400, idle: "-1000", inst: 1, shots: 2},                               // negative = no limit
-		{gap: 900, hs: "300", rht: "20000", inst: 1, shots: 2, plainOnly: true},    // three different timeouts
-		{gap: 300, mich: "-1", inst: 1, shots: 3},                                  // no idle connections kept
+		{gap: 1200, hs: "def", inst: 1, shots: 2, plainOnly: true},              // all defaults: 1s < pause < 90s
+		{gap: 800, hs: "300", inst: 1, shots: 2, plainOnly: true},               // short handshake timeout, default idle timeout
+		{gap: 800, idle: "300", inst: 1, shots: 3},                              // the operator's own short idle timeout
+		{gap: 150, idle: "2000", inst: 2, shots: 4},                             // idle timeout well above the pauses
+		{delay: 900, rht: "300", inst: 1, shots: 2},                             // answers later than response-header-timeout
+		{delay: 100, rht: "2500", inst: 1, shots: 3},                            // answers in time
+		{gap: 700, hs: "250", inst: 2, shots: 4, mode: "par", plainOnly: true},  // parallel instances, each pausing
+		{gap: 600, idle: "0", hs: "200", inst: 1, shots: 2, plainOnly: true},    // idle timeout 0 = no limit
+		{gap: 500, idle: "200", rht: "5000", inst: 2, shots: 4},                 // both timeouts given
+		{gap: 400, idle: "-1000", inst: 1, shots: 2},                            // negative = no limit
+		{gap: 900, hs: "300", rht: "20000", inst: 1, shots: 2, plainOnly: true}, // three different timeouts
+		{gap: 300, mich: "-1", inst: 1, shots: 3},                               // no idle connections kept
 		{gap: 300, mic: "-1", inst: 1, shots: 3},
 		{gap: 700, mich: "1", mic: "1", hs: "300", inst: 2, shots: 4, plainOnly: true},
-		{gap: 1300, hs: "def", inst: 2, shots: 4, mode: "par", plainOnly: true},    // defaults again, parallel
-		{gap: 450, delay: 450, idle: "300", rht: "150", inst: 1, shots: 2},         // both bite
-		{delay: 1250, hs: "def", inst: 1, shots: 2, plainOnly: true},               // a slow target, all defaults: no timeout applies
+		{gap: 1300, hs: "def", inst: 2, shots: 4, mode: "par", plainOnly: true}, // defaults again, parallel
+		{gap: 450, delay: 450, idle: "300", rht: "150", inst: 1, shots: 2},      // both bite
+		{delay: 1250, hs: "def", inst: 1, shots: 2, plainOnly: true},            // a slow target, all defaults: no timeout applies
 	}
 	var out []string
 	for i := 0; i < n; i++ {
@@ -1673,6 +1787,12 @@ func c09Class(in, obs string) string {
 	if c.lay != 0 {
 		cl += "/layout" + strconv.Itoa(c.lay)
 	}
+	if c.feat != 0 {
+		cl += "/features"
+	}
+	if c.nodns {
+		cl += "/no-dns-cache"
+	}
 	return cl
 }
 
@@ -1692,7 +1812,12 @@ func main() {
 			"strings chosen to collide with in-file names (same name, other case, duplicates, Host) x ssl x plain/TLS target " +
 			"(incl. mismatches) x keep-alive x 1-4 per-instance guns of the http, http2 or connect plugin x gun schedule x sequential/parallel " +
 			"shooting x response body 0-70000 bytes or a redirect to a decoy x preload x target 127.0.0.1/localhost/::1 x passes 1-2; a malformed " +
-			"stream (bad option strings, header names with spaces/non-token bytes, control bytes in values); plus direct " +
+			"stream (bad option strings, header names with spaces/non-token bytes, control bytes in values); round 2: cases that PAUSE " +
+			"(0.15-1.3 s between the shots of an instance, or a target answering up to 1.25 s late) under the transport options " +
+			"idle-conn-timeout / tls-handshake-timeout / response-header-timeout / max-idle-conns(-per-host) given by name or left at " +
+			"their defaults (margins >= 2.5x, a slow machine is reported as tm=late and skipped); answer status 2xx-5xx with bodies; " +
+			"file layout (blank lines, blanks around lines, multi-word tags, no final newline, CRLF, multi-line JSON); the gun's optional " +
+			"features (auto-tag, answlog, httptrace trace/dump, debug logging) and dns-cache off; plus direct " +
 			"CanonicalMIMEHeaderKey comparisons. Driven through config.DecodeAndValidate -> registered provider + registered http gun " +
 			"against an in-process recording server. non-trivial = at least one request arrived (or a canon comparison); " +
 			"distinct = distinct input line",
